@@ -649,6 +649,10 @@ class Nodes:
             typed_value = value
         except SyntaxError:
             typed_value = value
+        except (TypeError, MemoryError, RecursionError):
+            # Not a usable literal, either:  '{[1]: 2}' (unhashable key) or
+            # an expression nested too deeply to evaluate
+            typed_value = value
         return typed_value
 
     @staticmethod
